@@ -85,6 +85,19 @@ theorem sumAt_palindrome (b : Bool) (u : List K) (y : K) :
 
 end AddCommMonoid
 
+theorem reverse_zip_of_length_eq {α β : Type*} (l : List α) (m : List β) (h : l.length = m.length) :
+    (l.zip m).reverse = l.reverse.zip m.reverse := by
+  induction l generalizing m with
+  | nil => simp
+  | cons a l ih =>
+    cases m with
+    | nil => simp at h
+    | cons b m =>
+      have h' : l.length = m.length := by simpa using h
+      rw [List.zip_cons_cons, List.reverse_cons, List.reverse_cons, List.reverse_cons,
+        List.zip_append (by simpa using h'), ih m h']
+      rfl
+
 /-! ### alternating flow tags -/
 
 /-- `k` alternating tags starting with `b`. -/
@@ -144,5 +157,40 @@ theorem weight_alt [AddCommMonoid K] (tag : Bool) (c : List K) (b : Bool) (k : N
       unfold weight at this ⊢
       simp only [altTags, List.zip_cons_cons, List.filter_cons, sumAt]
       cases b <;> cases tag <;> simp_all
+
+/-! ### the derived coefficient list -/
+
+theorem deriveCoeffs_eq [Field K] (free : List K) :
+    deriveCoeffs free =
+      (free ++ [1 / 2 - (slice2 (free.length % 2) free).sum]) ++
+        [1 - 2 * (slice2 ((free.length + 1) % 2) free).sum] ++
+        (free ++ [1 / 2 - (slice2 (free.length % 2) free).sum]).reverse := by
+  simp [deriveCoeffs]
+
+theorem slice2_sum_of_even [AddCommMonoid K] (free : List K) (h : free.length % 2 = 0) :
+    (slice2 (free.length % 2) free).sum = sumAt true free ∧
+      (slice2 ((free.length + 1) % 2) free).sum = sumAt false free ∧ evenLen free = true := by
+  have h1 : (free.length + 1) % 2 = 1 := by omega
+  rw [h, h1, slice2_zero_sum, slice2_one_sum]
+  simp [evenLen, h]
+
+theorem slice2_sum_of_odd [AddCommMonoid K] (free : List K) (h : free.length % 2 = 1) :
+    (slice2 (free.length % 2) free).sum = sumAt false free ∧
+      (slice2 ((free.length + 1) % 2) free).sum = sumAt true free ∧ evenLen free = false := by
+  have h1 : (free.length + 1) % 2 = 0 := by omega
+  rw [h, h1, slice2_zero_sum, slice2_one_sum]
+  simp [evenLen, h]
+
+/-- Both position-parity sums of the derived coefficient list are one. -/
+theorem sumAt_deriveCoeffs [Field K] (b : Bool) (h2 : (2 : K) ≠ 0) (free : List K) :
+    sumAt b (deriveCoeffs free) = 1 := by
+  rw [deriveCoeffs_eq, sumAt_palindrome, sumAt_append, evenLen_append, sumAt_singleton]
+  rcases Nat.mod_two_eq_zero_or_one free.length with h | h
+  · obtain ⟨e1, e2, e3⟩ := slice2_sum_of_even free h
+    rw [e1, e2, e3]
+    cases b <;> simp [evenLen] <;> field_simp <;> ring
+  · obtain ⟨e1, e2, e3⟩ := slice2_sum_of_odd free h
+    rw [e1, e2, e3]
+    cases b <;> simp [evenLen] <;> field_simp <;> ring
 
 end MiciVerif.Integrators
